@@ -230,6 +230,20 @@ func lessPool() *table {
 		mkID("", "ConfigMap", "Ns1", "a"),
 		mkID("", "ConfigMap", "ns10", "a"),
 		mkID("", "ConfigMap", "ns", "z"),
+		// namespaces / names / groups extending one another with characters that sort
+		// below and above the separators a joined key would use ('-' '.' < '/' < digits < ':' < letters < '_')
+		mkID("", "ConfigMap", "ns-1", "a"),
+		mkID("", "ConfigMap", "ns.1", "a"),
+		mkID("", "ConfigMap", "ns", "a"),
+		mkID("", "ConfigMap", "ns", "a-b"),
+		mkID("", "ConfigMap", "ns", "a.b"),
+		mkID("", "ConfigMap", "ns", "a:b"),
+		mkID("", "ConfigMap", "ns", "a_b"),
+		mkID("", "ConfigMap", "ns", "a0"),
+		mkID("", "ConfigMap", "n", "s-1"),
+		mkID("foo-bar", "Deployment", "ns1", "x"),
+		mkID("foo.bar", "Deployment", "ns1", "x"),
+		mkID("fo", "oDeployment", "ns1", "x"),
 		// unlisted kind, namespace/name ties
 		mkID("foo", "Deployment", "ns1", "xy"),
 		mkID("foo", "Deployment", "ns0", "y"),
